@@ -7,14 +7,16 @@ ALT = os.environ.get("VERIF_REPO")
 OPS_T = ["div_f", "div_i", "mod", "coalesce", "neg", "not"]
 DIALECTS = ["ansi", "bigquery", "clickhouse", "duckdb", "generic", "glaredb", "mssql", "mysql", "postgres", "redshift", "sqlite", "snowflake"]
 
-def templates():
-    """(dialect, op) -> template text with the operands as identifiers zzlzz / zzrzz, read from std.sql.prql: the
-    definition in the dialect's module if there is one, the general one otherwise; `null` bodies are not templates"""
+FUNCS = ["math.abs", "math.floor", "math.ceil", "math.exp", "math.ln", "math.log10", "math.log", "math.sqrt", "math.degrees", "math.radians",
+         "math.cos", "math.sin", "math.tan", "math.atan", "math.pow", "math.round",
+         "text.lower", "text.upper", "text.ltrim", "text.trim", "text.length", "text.extract", "text.replace", "text.starts_with", "text.contains", "text.ends_with"]
+
+def _defs():
     path = STD
     if ALT and ALT != "/repo" and os.path.exists(os.path.join(ALT, "prqlc/prqlc/src/sql/std.sql.prql")):
         path = os.path.join(ALT, "prqlc/prqlc/src/sql/std.sql.prql")
     text = open(path).read()
-    defs = {}          # (module path, name) -> body text | None
+    defs = {}          # (module path, name) -> (params, body text | None)
     stack = []
     for line in text.split("\n"):
         m = re.match(r"^(\s*)module (\w+) \{", line)
@@ -25,16 +27,28 @@ def templates():
         m = re.match(r'^\s*let (\w+) = (.*?)-> (?:<[^>]*>\s*)?(s"""(.*)"""|s"((?:[^"\\]|\\.)*)"|null)\s*$', line)
         if m:
             body = m.group(4) if m.group(4) is not None else m.group(5)
-            defs[(tuple(stack), m.group(1))] = body
-    out = []
+            params = [x.strip("`") for x in re.sub(r"<[^>]*>", "", m.group(2)).split()]
+            defs[(tuple(stack), m.group(1))] = (params, body)
+    return defs
+
+def templates():
+    """(dialect, op) -> template text with the operands as identifiers zz<param>zz, read from std.sql.prql: the definition in
+    the dialect's module if there is one, the general one otherwise; `null` bodies are not templates.  Also the parameter
+    order of each function (how a call is written)."""
+    defs = _defs()
+    out, params = [], {}
     for d in DIALECTS:
-        for op in OPS_T:
-            body = defs.get(((d,), op), defs.get(((), op)))
-            if (((d,), op) in defs and defs[((d,), op)] is None) or body is None:
+        for op in OPS_T + FUNCS:
+            path = tuple(op.split(".")[:-1]); name = op.split(".")[-1]
+            own = defs.get(((d,) + path, name)); gen_ = defs.get((path, name))
+            if gen_ is not None:
+                params[op] = gen_[0]
+            pick = own if own is not None else gen_
+            if pick is None or pick[1] is None:
                 continue
-            sql = re.sub(r"\{(\w+)(?::\d+)?\}", lambda mm: "zz" + {"l": "l", "r": "r"}.get(mm.group(1), mm.group(1)) + "zz", body)
+            sql = re.sub(r"\{(\w+)(?::\d+)?\}", lambda mm: "zz" + mm.group(1) + "zz", pick[1])
             out.append({"dialect": d, "op": op, "text": sql})
-    return out
+    return out, params
 
 BIN = ["+", "-", "*", "/", "//", "%", "==", "!=", "<", "<=", ">", ">=", "&&", "||", "??"]
 UN = ["-", "!"]
@@ -47,7 +61,11 @@ def show(t):
     if t["t"] == "col": return t["name"]
     if t["t"] == "lit": return "null" if t["v"]["k"] == "null" else (f"({t['v']['n']})" if t["v"]["n"] < 0 else str(t["v"]["n"]))
     if t["t"] == "un": return f"({t['op']}{show(t['e'])})"
+    if t["t"] == "call": return "(" + t["f"] + "".join(" " + show(x["e"]) for x in t["args"]) + ")"
     return f"({show(t['l'])} {t['op']} {show(t['r'])})"
+
+def call(f, params, *args):
+    return {"t": "call", "f": f, "args": [{"name": p, "e": a} for p, a in zip(params, args)]}
 
 def between_like(t):
     """and(gte(x, _), lte(x, _)) is compiled to BETWEEN: not in this family"""
@@ -56,11 +74,27 @@ def between_like(t):
             return True
         return between_like(t["l"]) or between_like(t["r"])
     if t["t"] == "un": return between_like(t["e"])
+    if t["t"] == "call": return any(between_like(x["e"]) for x in t["args"])
     return False
 
-def trees(tier, rnd):
+def trees(tier, rnd, params):
     a, b, k = col("a"), col("b"), col("k")
     out = []
+    # std functions: as an operand of every operator class on either side, under the unary operators, and with operator
+    # expressions as their own arguments
+    for f in FUNCS:
+        ps = params.get(f)
+        if ps is None:
+            continue
+        plain = call(f, ps, *([lit(2)] * (len(ps) - 1) + [a]))
+        for p in ("*", "/", "%", "-", "+", "==", "&&", "??", "//"):
+            out.append(bin_(p, k, plain)); out.append(bin_(p, plain, k))
+        out.append(un("-", plain)); out.append(un("!", plain))
+        # (operator expressions as arguments: for the numeric functions; a text pattern that is a sum has no meaning)
+        for inner in ((bin_("+", a, b), bin_("%", a, b), un("-", a), bin_("==", a, b), bin_("//", a, b)) if f.startswith("math.") else (bin_("??", a, b), un("-", a))):
+            out.append(call(f, ps, *([lit(2)] * (len(ps) - 1) + [inner])))
+            if len(ps) > 1:
+                out.append(call(f, ps, *([inner] + [lit(3)] * (len(ps) - 2) + [a])))
     for p in BIN:                       # every (parent, child, side)
         for c in BIN:
             out.append(bin_(p, bin_(c, a, b), k)); out.append(bin_(p, k, bin_(c, a, b)))
@@ -100,12 +134,20 @@ def adj_tags(t, out=None):
                 out.add("divi-operand")
         if c["t"] != "col" and c["t"] != "lit":
             adj_tags(c, out)
+    if t["t"] == "call":
+        out.add("call:" + t["f"])
+        for x in t["args"]:
+            if x["e"]["t"] not in ("col", "lit"):
+                out.add("call-arg-op"); adj_tags(x["e"], out)
+    for side, c in kids:
+        if c["t"] == "call":
+            out.add(f"adj:{t['op']}>{c['f']}:{side}"); adj_tags(c, out)
     return out
 
 def run(d, tier):
     rnd = random.Random(seed() + 2)
-    ts = trees(tier, rnd)
-    tm = templates()
+    tm, params = templates()
+    ts = trees(tier, rnd, params)
     srcs = [{"id": f"x{i}", "src": f"from t | select {{v = {show(t)}}}"} for i, t in enumerate(ts)]
     ip = os.path.join(d, "shape.in.json"); op = os.path.join(d, "shape.out.ndjson")
     json.dump({"templates": tm, "sources": srcs, "dialects": DIALECTS}, open(ip, "w"))
